@@ -47,6 +47,7 @@ def xml_doc(g):
             if df != "notype":
                 ET.SubElement(e, "type").text = "" if df == "emptytype" else "t"
             ET.SubElement(e, "id").text = "nonsense-id" if df == "badid" else UUIDS[h]
+            ET.SubElement(e, "definition").text = "coverage in % of the area (100%d %s)"      # text with format characters
             if df == "unknown-child":
                 ET.SubElement(e, "foo").text = "bar"
             if df == "attr":
@@ -62,6 +63,7 @@ def xml_doc(g):
                 ET.SubElement(e, "name").text = "a" if ((df == "dupname" and h == "p2") or g[TREE[h]] == "noname-dupchild") else NAME[h]
             ET.SubElement(e, "id").text = "nonsense-id" if df == "badid" else UUIDS[h]
             ET.SubElement(e, "type").text = "nonsense-type" if df == "baddtype" else "int"
+            ET.SubElement(e, "unit").text = "%"
             ET.SubElement(e, "value").text = "abc" if df in ("badvalue", "noname-badvalue") else ("" if df == "emptyvalue" else "[ \n\t ]" if df == "blanklist" else "[ 1 ,   2 ]" if df == "spacedlist" else "[1,2]")
             if df == "repeat-value":
                 ET.SubElement(e, "value").text = "[3]"
@@ -108,6 +110,7 @@ def dict_doc(g):
             e["name"] = "a" if ((df == "dupname" and h == "p2") or g[TREE[h]] == "noname-dupchild") else NAME[h]
         e["id"] = "nonsense-id" if df == "badid" else UUIDS[h]
         e["type"] = "nonsense-type" if df == "baddtype" else "int"
+        e["unit"] = "%"
         e["value"] = ["abc"] if df in ("badvalue", "noname-badvalue") else ([] if df == "emptyvalue" else [" \n\t "] if df == "blanklist" else [1, 2])
         if df in ("unknown-child", "attr", "case-tag", "repeat-value"):
             e["foo"] = "bar"
@@ -123,6 +126,7 @@ def dict_doc(g):
             e["Name" if df == "case-child" else "name"] = "" if df == "emptyname" else ("a" if (df == "dupname" and h == "s2") else NAME[h])
         if df != "notype":
             e["type"] = "" if df == "emptytype" else "t"
+        e["definition"] = "coverage in % of the area (100%d %s)"
         e["id"] = "nonsense-id" if df == "badid" else UUIDS[h]
         if df in ("unknown-child", "attr", "case-tag", "repeat-name", "text-in-element"):
             e["foo"] = "bar"
